@@ -3,22 +3,35 @@
 # current working tree (through the replace directive in go.mod) with the
 # `verif` build tag, then dispatches.
 #   ./run.sh setup | check <ID> --tier quick|thorough | replay <file> | selftest <ID> | manifest | list
+# Development knobs (not used by registered commands):
+#   VERIF_REPO=/path/to/scratch/code/go/0chain.net  build against a scratch copy of the repository module
+#   VERIF_MAIN=./cmd/dev_x VERIF_BIN=/tmp/x/verif.test  build another harness main package
 set -u
 cd "$(dirname "$0")"
 export GOFLAGS=-mod=mod GOPROXY=off GOSUMDB=off GOTOOLCHAIN=local GOWORK=off
-export VERIF_DIR="$(pwd)"
+export VERIF_DIR="${VERIF_DIR:-$(pwd)}"
 GO=/opt/veriftools/go1.26.8/bin/go
 [ -x "$GO" ] || GO=go1.26.8
+export VERIF_GO="$GO"
 mkdir -p bin evidence replays
+MAIN="${VERIF_MAIN:-./cmd/verif}"
+BIN="${VERIF_BIN:-bin/verif.test}"
+MODFLAG=""
+if [ -n "${VERIF_REPO:-}" ]; then
+  alt="$(dirname "$BIN")/go.alt.mod"
+  sed "s#^replace 0chain.net => .*#replace 0chain.net => ${VERIF_REPO}#; s#=> ./simdisk/grocksdb#=> $(pwd)/simdisk/grocksdb#" go.mod > "$alt"
+  cp go.sum "$(dirname "$BIN")/go.alt.sum"
+  MODFLAG="-modfile=$alt"
+fi
 build() {
   (
     flock 9
-    "$GO" test -c -tags verif -o bin/verif.test ./cmd/verif 2> bin/build.log
+    "$GO" test -c -tags verif $MODFLAG -o "$BIN" "$MAIN" 2> "$BIN.build.log"
   ) 9> bin/.lock
   rc=$?
   if [ $rc -ne 0 ]; then
-    echo "BUILD FAILED (harness or /repo does not compile with -tags verif):" >&2
-    tail -40 bin/build.log >&2
+    echo "BUILD FAILED (harness or repository does not compile with -tags verif):" >&2
+    tail -40 "$BIN.build.log" >&2
     exit 2
   fi
 }
@@ -26,5 +39,5 @@ cmd="${1:-}"
 case "$cmd" in
   setup) build; echo "setup ok";;
   "") echo "usage: run.sh setup|check|replay|selftest|manifest|list" >&2; exit 2;;
-  *) build; exec bin/verif.test "$@";;
+  *) build; exec "$BIN" "$@";;
 esac
